@@ -312,7 +312,7 @@ func runC09(c *Ctx) error {
 	dir := filepath.Join(c.Tmp, "scripts")
 	_ = os.MkdirAll(dir, 0o755)
 	base := &PkgSpec{Raw: []wire.Content{{Src: filepath.Join(tree.Root, "bin/tool"), Dst: "/usr/bin/tool"}}, Umask: 0o022, MTime: 1700000000}
-	fam := c.Rep.Family("scripts", "every subset of the configurable script slots of each format (exhaustive: 2^7 deb, 2^7 rpm, 2^6 apk, 2^6 archlinux, 2^4 ipk) with pairwise distinct random script bodies, every second one configured through a symbolic link to the script file (shell text; binary without trailing newline; with NUL except rpm), plus empty-file and NUL-in-rpm edge cases; every subset of two and more once again with every second script set in the format's override block and the effective settings taken from Config.Get; slots read back from control members / rpm tags / .INSTALL; non-trivial = at least one script configured")
+	fam := c.Rep.Family("scripts", "every subset of the configurable script slots of each format (exhaustive: 2^7 deb, 2^7 rpm, 2^6 apk, 2^6 archlinux, 2^4 ipk) with pairwise distinct random script bodies, every second one configured through a symbolic link to the script file (shell text; binary without trailing newline; with NUL except rpm), plus empty-file, NUL-in-rpm and bodies ending in NUL bytes across a 512-byte boundary; every subset of two and more once again with every second script set in the format's override block and the effective settings taken from Config.Get; slots read back from control members / rpm tags / .INSTALL; non-trivial = at least one script configured")
 	fam.Exhaustive = true
 	r := c.R.Fork("c09")
 	rounds := c.N(1, 25)
@@ -336,6 +336,19 @@ func runC09(c *Ctx) error {
 		}
 		// edge cases: empty script file, and NUL bytes in rpm
 		scriptCase(c, fam, f, [][2]string{{"Scripts.PreInstall", ""}}, "empty-file", dir, base)
+		// bodies that end in NUL bytes up to and across a 512-byte block boundary (a tar stream ends in zero blocks: the
+		// body's own zeros are not part of that marker), alone in each slot and in all slots at once
+		if f != "rpm" {
+			tails := []string{"#!/bin/sh\n" + strings.Repeat("\x00", 502) + "\x00", "#!/bin/sh\n" + strings.Repeat("x", 502) + strings.Repeat("\x00", 512), strings.Repeat("\x00", 1024)}
+			for ti, body := range tails {
+				var all [][2]string
+				for _, sel := range sels {
+					scriptCase(c, fam, f, [][2]string{{sel, body}}, fmt.Sprintf("nul-tail-%d", ti), dir, base)
+					all = append(all, [2]string{sel, body + strings.Repeat("y", len(all)) + strings.Repeat("\x00", 512-len(all))})
+				}
+				scriptCase(c, fam, f, all, fmt.Sprintf("nul-tail-all-slots-%d", ti), dir, base)
+			}
+		}
 		if f == "rpm" {
 			scriptCase(c, fam, f, [][2]string{{"Scripts.PostRemove", "a\x00b"}}, "nul-byte", dir, base)
 		}
